@@ -57,7 +57,7 @@ def generated_corpus4():
 
 def generated_corpus5():
     seen, out = set(), []
-    for (src, fam) in progen.corpus5() + progen.corpus6() + progen.corpus7():
+    for (src, fam) in progen.corpus5() + progen.corpus6() + progen.corpus7() + progen.corpus8():
         if src not in seen:
             seen.add(src)
             out.append((oracles.sha(src), src, fam))
@@ -474,3 +474,84 @@ def observed_examples():
                 out.append((oracles.sha(t), t, "repo-example"))
         _OBSERVED = out
     return _OBSERVED
+
+
+# ------------------------------------------------------------------------------------------------ C02 on the pipeline's own intermediate texts
+
+RULE_MODULES = ["fixes", "abstractions", "object_oriented", "performance", "performance_numpy", "performance_pandas", "symbolic_math", "tracing"]
+
+
+def task_pipeline_steps(args):
+    """format_code with every public text -> text function of the rule modules wrapped: every step that changed the text is
+    executed before and after.  Returns the steps that changed the behaviour of a normally terminating text."""
+    import functools
+    import importlib
+    import types
+
+    src, opts, stub_world = args
+    steps, originals = [], []
+    for m in RULE_MODULES:
+        mod = importlib.import_module("pyrefact." + m)
+        for name in dir(mod):
+            f = getattr(mod, name)
+            if isinstance(f, types.FunctionType) and f.__module__ == mod.__name__ and not name.startswith("_"):
+                def wrap(f=f, label=m + "." + name):
+                    @functools.wraps(f)
+                    def g(source, *a, **k):
+                        out = f(source, *a, **k)
+                        if isinstance(source, str) and isinstance(out, str) and out != source:
+                            steps.append((label, source, out))
+                        return out
+                    return g
+                originals.append((mod, name, f))
+                setattr(mod, name, wrap())
+    main = importlib.import_module("pyrefact.main")
+    try:
+        main.format_code(src, **opts)
+    except Exception:  # noqa: BLE001  (C04's business)
+        return {"status": "crash", "steps": len(steps), "bad": []}
+    finally:
+        for mod, name, f in originals:
+            setattr(mod, name, f)
+    cache = {}
+
+    def obs(text):
+        if text not in cache:
+            cache[text] = oracles.observe(text, stub_world)
+        return cache[text]
+    bad = []
+    for (label, before, after) in steps[:120]:
+        b = obs(before)
+        if b[0] != "ok":
+            continue
+        a = obs(after)
+        if (a[0], a[1]) != (b[0], b[1]) or (stub_world and a[2] != b[2]):
+            bad.append({"rule": label, "before": before, "after": after,
+                        "diff": "ends with " + a[0] if a[0] != b[0] else "stdout differs" if a[1] != b[1] else "call log differs"})
+    return {"status": "ok", "steps": len(steps), "bad": bad}
+
+
+def pipeline_steps_suite(ctx, quick_n=60):
+    s = Suite("C02-pipeline-steps", kind="oracle")
+    base = baseline("C02")
+    items = pick(generated_corpus(), ctx, quick_n) + pick(targeted(), ctx, quick_n * 3) + pick(example_corpus(), ctx, quick_n // 2)
+    results = oracles.pmap(task_pipeline_steps, [(src, {}, fam == "repo-example") for (_sha, src, fam) in items])
+    total = 0
+    for (sha, src, fam), res in zip(items, results):
+        s.cases += 1
+        if not isinstance(res, dict) or res.get("status") != "ok":
+            continue
+        total += res["steps"]
+        if res["steps"]:
+            s.nt([sha])
+        for d in res["bad"]:
+            k = key(oracles.sha(d["before"]), {}, d["rule"])
+            if k in base or key(sha, {}, d["rule"]) in base:
+                continue
+            s.disagreements.append({"sha": oracles.sha(d["before"]), "src": d["before"], "rule": d["rule"], "out": d["after"], "family": fam, "origin": sha,
+                                    "what": f"rule {d['rule']} changes behaviour on a text that arises inside format_code ({d['diff']}; origin: {fam} program {sha})"})
+    s.samples.append({"suite": s.name, "rule_steps_executed": total})
+    s.note = ("format_code traced: every public text -> text function of the rule modules is wrapped, each step that changed the text is executed before and after (same "
+              "oracle as the rule sweep).  Covers the rules on the programs that only arise after other rules have fired - the original-program sweep cannot see those "
+              "(two repaired defects, f7bbc0b and 64fa3c3, were of that kind); non-trivial = programs with at least one step")
+    return s
